@@ -95,7 +95,7 @@ def dash (s : String) : String := if s.isEmpty then "-" else s
 
 def handleC04 : Handler := fun args =>
   match args with
-  | ["c04", hs, df, a0, callers, steps, stream] =>
+  | "c04" :: hs :: df :: a0 :: callers :: steps :: stream :: _ =>
     match parseNatList hs, df.toNat?, parseNatList a0, parseNatList callers, parseSteps steps, parseStream stream with
     | some hs, some df, some a0, some callers, some steps, some s =>
       let cfg : Cfg := { handlers := hs, hasDefault := df != 0 }
